@@ -152,7 +152,7 @@ func (e *explorer) explore(prefix []int) {
 	}
 	if len(pts) < len(prefix) {
 		e.stop = true
-		e.res.EngineError = fmt.Sprintf("replay divergence: prefix of %d choices but execution had only %d choice points", len(prefix), len(pts))
+		e.res.EngineError = fmt.Sprintf("replay divergence: prefix of %d choices but execution had only %d choice points; prefix=%v points=%v outcome=%q deadlock=%v", len(prefix), len(pts), prefix, pts, ex.Outcome, run.Deadlock)
 		return
 	}
 	ch := chosen(pts)
